@@ -49,7 +49,7 @@ def n_cases(tier, quick, thorough):
 
 # ------------------------------------------------------------------ bind.generate
 def gen_generate(rng, tier):
-    for _ in range(n_cases(tier, 60, 600)):
+    for _ in range(n_cases(tier, 60, 400)):
         u, desc, ctx = new_universe(rng)
         for _ in range(6):
             try:
@@ -94,7 +94,7 @@ def documents(rng, tier, n_uni, per_uni, mutate=True):
 
 
 def gen_parse(rng, tier):
-    for u, ctx, desc, tree, kind in documents(rng, tier, n_cases(tier, 50, 500), 4):
+    for u, ctx, desc, tree, kind in documents(rng, tier, n_cases(tier, 50, 350), 4):
         yield {"ctx": ctx, "tree": tree, "clazz": "Root", "config": rng.choice(CONFIGS), "desc": desc, "_uni": u.modname, "_kind": kind}
 
 
@@ -133,7 +133,7 @@ def corpus_roundtrip():
 
 def gen_roundtrip(rng, tier):
     yield from corpus_roundtrip()
-    for _ in range(n_cases(tier, 50, 500)):
+    for _ in range(n_cases(tier, 50, 350)):
         u, desc, ctx = new_universe(rng)
         for _ in range(4):
             try:
